@@ -305,14 +305,23 @@ func (e *Engine) externIntrinsic(st *State, fr *Frame, fn *ssa.Function, args []
 		if !ok {
 			e.fail("errors.As with an opaque target")
 		}
-		pt, ok := tv.V.(*PtrV)
-		if !ok || typeName(pt.T) != "websocket.CloseError" {
+		var target Value
+		var pointee types.Type
+		switch x := tv.V.(type) {
+		case *PtrV:
+			target, pointee = x, x.T
+		case *smt.Term:
+			if p, ok := under(tv.T).(*types.Pointer); ok {
+				target, pointee = x, p.Elem()
+			}
+		}
+		if target == nil || typeName(pointee) != "websocket.CloseError" {
 			e.fail("errors.As target %s unsupported", tv.T)
 		}
 		ok2 := e.errIsCE(st, a)
-		cur := e.load(st, pt, pt.T, "").(*StructV)
-		nv := &StructV{T: pt.T, F: []Value{c.Ite(ok2, e.errCECode(a), cur.F[0].(*smt.Term)), c.Ite(ok2, e.errCEReason(a), cur.F[1].(*smt.Term))}}
-		e.store(st, pt, pt.T, nv, "")
+		cur := e.load(st, target, pointee, "").(*StructV)
+		nv := &StructV{T: pointee, F: []Value{c.Ite(ok2, e.errCECode(a), cur.F[0].(*smt.Term)), c.Ite(ok2, e.errCEReason(a), cur.F[1].(*smt.Term))}}
+		e.store(st, target, pointee, nv, "")
 		return ok2, true
 	case "fmt.Sprintf", "fmt.Sprint":
 		// opaque string result
